@@ -264,6 +264,7 @@ Section Parsers.
 
   Definition parse_hrd : M hrd :=
     cnt <- rd_ue ;;
+    if 31 <? cnt then u <- set_err ;; ret (mkHrd cnt 0 0 [] 0 0 0 0) else   (* guard 325a401 *)
     brs <- rd 4 ;;
     css <- rd 4 ;;
     entries <- rep_n (cnt + 1) parse_cpb_entry ;;
@@ -353,6 +354,7 @@ Section Parsers.
       o1 <- rd_ue ;;
       o2 <- rd_ue ;;
       n <- rd_ue ;;
+      if 255 <? n then fail else                         (* guard 325a401 *)
       cyc <- rep_n n rd_ue ;;                            (* make([]uint, n) + loop *)
       ret (0, dz, o1, o2, cyc)
     else ret (0, false, 0, 0, []).
